@@ -58,6 +58,7 @@ def spec():
             # `allOf: [{$ref}]` + annotations: the OpenAPI 3.0 idiom for a nullable / described reference (here to enums)
             "state": {"allOf": [{"$ref": "#/components/schemas/Status"}], "nullable": True},
             "rank": {"allOf": [{"$ref": "#/components/schemas/Level"}], "description": "described reference"},
+            "marks": {"type": "array", "items": {"allOf": [{"$ref": "#/components/schemas/Status"}], "nullable": True}},
             # arrays whose ITEMS may be null
             "slots": {"type": "array", "items": {"type": "string", "nullable": True}}, "counts": {"type": "array", "items": {"type": "integer", "nullable": True}}}},
         # declared properties AND additionalProperties: the extra keys are admitted by the schema
